@@ -136,6 +136,19 @@ func argv(i, n int) []byte {
 		out[0] = 'a' + byte(i%26)
 		out[1] = '='
 	}
+	// some arguments begin or end with white space: legal ASCII that an encoder must carry verbatim
+	if n >= 4 {
+		switch i % 5 {
+		case 1:
+			out[n-1] = ' '
+		case 2:
+			out[0] = ' '
+		case 3:
+			out[n-1] = '\n'
+		case 4:
+			out[n-2], out[n-1] = '\t', ' '
+		}
+	}
 	return out
 }
 
@@ -151,7 +164,7 @@ func rep(n, l int) argShape {
 }
 
 func argShapes(min int, thorough bool) []argShape {
-	s := []argShape{nil, {2}, {255}, {2, 255}, rep(255, 2), rep(255, 255)}
+	s := []argShape{nil, {2}, {255}, {2, 255}, rep(255, 2), rep(255, 255), {9, 8, 7, 6, 5}}
 	if min == 0 {
 		s = append(s, argShape{0}, argShape{0, 1, 0}, rep(255, 0))
 	}
